@@ -15,7 +15,7 @@ import sys
 import time
 
 ROOT = os.path.dirname(os.path.dirname(os.path.abspath(__file__)))
-WT = "/tmp/wt_seed_eval"
+WT = os.environ.get("VERIF_SEED_WT", "/tmp/wt_seed_eval")
 
 
 def sh(cmd, **kw):
